@@ -60,6 +60,7 @@ def units(tier, seed):
     if tier == "thorough":
         us += [{"kind": "seqs", "tier": tier, "first": i, "depth": 4, "only_len": 4} for i in range(len(seq_alphabet(tier, 4)))]
     us.append({"kind": "self-synonym"})
+    us += [{"kind": "after-merge", "tier": tier, "first": i} for i in range(len(seq_alphabet(tier, 3)))]
     for kind in ("prefix_map", "priority_map", "reverse_map", "jsonld"):
         us.extend({"kind": kind, "part": i, "of": 8} for i in range(8))
     return us
@@ -218,6 +219,14 @@ def run_unit(unit, ctx):
                 ctx.violation(f"C04/{sig}", msg, {"kind": "seq", "seq": seq})
         if last:
             ctx.sample({"kind": "seq", "seq": last})
+    elif kind == "after-merge":
+        alpha = seq_alphabet(unit["tier"], 3)
+        a = alpha[unit["first"]]
+        for b in alpha:
+            for c in alpha:
+                seq = recs_to_json([a, b, c])
+                for sig, msg in run_after_merge(seq, ctx)[:2]:
+                    ctx.violation(f"C04/{sig}", msg, {"kind": "after-merge", "seq": seq})
     elif kind == "self-synonym":
         for sig, msg in run_self(ctx):
             ctx.violation(f"C04/{sig}", msg, {"kind": "self-synonym"})
@@ -245,14 +254,75 @@ def run_self(ctx=None):
                         fails.append((f"self-synonym-accepted/{side}", f"Record({kw}) accepted although {p!r} is its own {side}"))
                     except ValueError:
                         pass
+                    # the same entry as a dictionary through the extended-prefix-map loader
+                    d = dict(prefix=kw["prefix"], uri_prefix=kw["uri_prefix"], prefix_synonyms=kw.get("prefix_synonyms", []), uri_prefix_synonyms=kw.get("uri_prefix_synonyms", []))
+                    for label, f in (("from_extended_prefix_map", lambda: Converter.from_extended_prefix_map([d])), ("load_extended_prefix_map", lambda: curies.load_extended_prefix_map([dict(d), {"prefix": "other", "uri_prefix": "o/"}]))):
+                        try:
+                            f()
+                            fails.append((f"self-synonym-accepted/{side}/{label}", f"{label}([{d}]) accepted although {p!r} is its own {side}"))
+                        except ValueError:
+                            pass
                     if ctx is not None:
                         ctx.count("self_synonym_records")
-                        ctx.count("evaluations")
+                        ctx.count("evaluations", 3)
+        for u in U:
+            for lst in ([u, u], [u, "q", u], ["q", u, u][::-1]):
+                try:
+                    Converter.from_priority_prefix_map({p or "k": list(lst)})
+                    if lst[0] in lst[1:]:
+                        fails.append(("self-synonym-accepted/uri_prefix/from_priority_prefix_map", f"from_priority_prefix_map({{{p or 'k'!r}: {lst}}}) accepted although {lst[0]!r} repeats as its own synonym"))
+                except ValueError:
+                    pass
+    return fails
+
+
+def run_after_merge(seq, ctx=None):
+    """Non-initial state: records that lived in a converter and gained synonyms through a merge are handed to the
+    constructor again together with a record claiming one of the gained strings - this must be rejected - and alone -
+    this must be accepted and own every gained string."""
+    import copy
+
+    fails = []
+    recs = recs_from_json(seq)
+    a, b, c = recs
+    base = Model([a, b], ":")
+    if not base.valid():
+        return fails
+    m = base.copy()
+    outcome, idx = m.add_record(c, merge=True)
+    if outcome != "merged":
+        return fails
+    gained_p = set(m.records[idx].prefixes) - set(base.records[idx].prefixes)
+    gained_u = set(m.records[idx].uri_prefixes) - set(base.records[idx].uri_prefixes)
+    if not gained_p and not gained_u:
+        return fails
+    conv = Converter([to_record(a), to_record(b)])
+    conv.get_prefixes(include_synonyms=True)
+    conv.add_record(to_record(c), merge=True)
+    live = list(conv.records)
+    for how, objs in (("the-same-record-objects", live), ("deep-copies", copy.deepcopy(live))):
+        where = f"Converter({[a, b]}) + add_record({c}, merge=True); constructor given {how}"
+        model = Model(list(m.records), ":")
+        check_result(lambda: Converter(list(objs)), model, fails, where, ctx)
+        for s_ in sorted(gained_p):
+            d = mrec("zz", "zz/", (s_,))
+            model = Model(list(m.records) + [d], ":")
+            check_result(lambda: Converter([*objs, to_record(d)]), model, fails, where + f" + a record claiming gained prefix {s_!r}", ctx)
+        for u_ in sorted(gained_u):
+            d = mrec("zz", "zz/", (), (u_,))
+            model = Model(list(m.records) + [d], ":")
+            check_result(lambda: Converter([*objs, to_record(d)]), model, fails, where + f" + a record claiming gained URI prefix {u_!r}", ctx)
+    if ctx is not None:
+        ctx.count("after_merge_histories")
+        if not fails:
+            ctx.count("validated")
     return fails
 
 
 def replay(case):
     kind = case["kind"]
+    if kind == "after-merge":
+        return [(f"C04/{s}", m) for s, m in run_after_merge(case["seq"], None)]
     if kind == "seq":
         fails = run_seq(case["seq"], None)
     elif kind == "self-synonym":
@@ -268,7 +338,9 @@ def describe(tier):
         "rule": "81 records over prefixes {a,A,b} x URI prefixes {x,X,xy} with <=1 synonym per side (+3 records repeating a value inside their "
         "own synonym list); every sequence of 1..3 of them (repetition allowed, order matters; thorough adds all 4-sequences over a 20-record "
         "sub-alphabet), through the constructor and from_extended_prefix_map; all partial prefix maps, priority maps, "
-        "reverse maps and JSON-LD contexts over the same strings in every key order; self-synonym records; distinct_nontrivial = distinct "
+        "reverse maps and JSON-LD contexts over the same strings in every key order; self-synonym records (constructor and loaders); every "
+        "history Converter([a,b]) + add_record(c, merge=True) whose live (or deep-copied) records are handed to the constructor again, alone and "
+        "with a record claiming each gained string; distinct_nontrivial = distinct "
         "(URI clash set, prefix clash set, length) triples",
         "bounds": {"records_per_sequence": 3, "strings_per_side": 3},
         "exhaustive": True,
@@ -277,4 +349,4 @@ def describe(tier):
 
 
 def required_counters(tier):
-    return ["valid", "clash_both_sides", "clash_uri_only", "clash_prefix_only", "self_synonym_records", "loader_cases", "validated"]
+    return ["valid", "clash_both_sides", "clash_uri_only", "clash_prefix_only", "self_synonym_records", "loader_cases", "after_merge_histories", "validated"]
